@@ -219,6 +219,136 @@ def section_rw(ctx, algo: str = 'Fixed') -> None:
                           f'behaviours of the model (each also fails a monitor)')
 
 
+# ---------------------------------------------------------------- fl section
+_FSTATE = {'absent': 'Absent', 'fresh': 'Fresh', 'expired': 'Expired'}
+
+
+def enc_flabel(lab) -> str:
+    op, i = lab
+    if op == 'expire':
+        return 'FExpire'
+    return f'({"FRun" if op == "run" else "FCancel"} {T.nat(i)})'
+
+
+def enc_fevent(ev) -> str:
+    what, kind, i = ev
+    name = {'enter': 'FEnter', 'exit': 'FExit', 'timeout': 'FTimeout'}[what]
+    return f'({name} {"KR" if kind == "R" else "KW"} {T.nat(i)})'
+
+
+def enc_fobs(rec) -> str:
+    evs = rec['events']
+    ev_term = T.lst(enc_fevent(e) for e in evs) if evs else '(@nil fevent)'
+    status = [_STATUS.get(s, 3) for s in rec['view']['status']]
+    return (f'(mkFObs {enc_flabel(rec["label"])} {enc_natlist(rec["enabled"])} {ev_term} '
+            f'{_FSTATE[rec["view"]["file"]]} {enc_natlist(status)})')
+
+
+def fl_configs(ctx):
+    """(programs, retry delays, initial lock file, budget of cancel/expire labels)"""
+    R1, W1, W0, W2 = ('R', 1, False), ('W', 1, False), ('W', 0, False), ('W', 2, False)
+    Wx = ('W', 1, True)
+    quick = [
+        ([[W1], [W1]], 2, None, 1),
+        ([[W1], [W1], [R1]], 1, None, 1),
+        ([[W2], [W0, W1]], 2, None, 1),
+        ([[Wx, W1], [W1]], 1, None, 1),
+        ([[W1], [R1]], 1, 'fresh', 1),
+        ([[W1], [W1]], 1, 'expired', 1),
+        ([[W1], [W1], [W1]], 1, None, 0),
+    ]
+    if ctx.quick:
+        return quick
+    return quick + [
+        ([[W1], [W1], [W1]], 2, None, 1),
+        ([[W1], [W1]], 2, None, 2),
+        ([[W1, R1], [R1, W1]], 2, None, 1),
+        ([[W1], [W1]], 2, 'fresh', 2),
+        ([[Wx, W0], [W2], [R1]], 2, None, 1),
+    ]
+
+
+def fl_monitors(ctx, cfg, prefix, steps, log, view, terminal) -> bool:
+    progs, ndelays, stale, _ = cfg
+    replay = {'section': 'fl', 'programs': progs, 'ndelays': ndelays, 'stale': stale,
+              'schedule': [list(x) for x in prefix]}
+    # was the documented assumption respected?  (no expiry while a writer is inside)
+    inside: set[int] = set()
+    overstay = False
+    for rec in steps:
+        if rec['label'][0] == 'expire' and inside:
+            overstay = True
+        for what, kind, i in rec['events']:
+            if kind == 'W' and what == 'enter':
+                inside.add(i)
+            elif kind == 'W' and what == 'exit':
+                inside.discard(i)
+    if overstay:
+        return False
+    bad = writers_monitor(log)
+    if bad:
+        ctx.failure('filelock_excl', bad + f' (programs {progs}, schedule {list(prefix)})',
+                    replay, {'kind': 'two_writers'})
+        return True
+    inside = set()
+    for k, rec in enumerate(steps):
+        for what, kind, i in rec['events']:
+            if kind == 'W' and what == 'enter':
+                inside.add(i)
+            elif kind == 'W' and what == 'exit':
+                inside.discard(i)
+        left = any(e[0] == 'exit' and e[1] == 'W' for e in rec['events'])
+        if left and not inside and rec['view']['file'] != 'absent':
+            ctx.failure('filelock_released',
+                        f'writer left its critical section at step {k} but the lock file is '
+                        f'still there (programs {progs}, schedule {list(prefix)})',
+                        replay, {'kind': 'not_released'})
+            return True
+        if inside and rec['view']['file'] == 'absent':
+            ctx.failure('filelock_excl',
+                        f'a writer is inside but the lock file is gone at step {k} '
+                        f'(programs {progs}, schedule {list(prefix)})', replay,
+                        {'kind': 'file_removed_under_holder'})
+            return True
+    if terminal and stale is None and view['file'] != 'absent':
+        ctx.failure('filelock_released', f'all tasks ended, lock file left behind '
+                    f'(programs {progs}, schedule {list(prefix)})', replay, {'kind': 'not_released'})
+        return True
+    return False
+
+
+def section_fl(ctx) -> None:
+    cases, descr, stats = [], [], []
+    for cfg in fl_configs(ctx):
+        progs, ndelays, stale, budget = cfg
+        leaves, n_states, n_trans = explore(
+            lambda: FLRun(progs, ndelays=ndelays, stale=stale), budget,
+            extra_labels=lambda r: [('expire', 0)])
+        stats.append({'programs': repr(progs), 'delays': ndelays, 'stale': stale,
+                      'cancel_or_expire': budget, 'states': n_states,
+                      'transitions': n_trans, 'paths': len(leaves)})
+        for prefix, steps, log, view, terminal in leaves:
+            ctx.count(('fl', repr(cfg), prefix), nontrivial=len(prefix) > 2)
+            failed = fl_monitors(ctx, cfg, prefix, steps, log, view, terminal)
+            obs = T.lst(enc_fobs(r) for r in steps) if steps else '(@nil fobs)'
+            f0 = {None: 'Absent', 'fresh': 'Fresh', 'expired': 'Expired'}[stale]
+            cases.append(f'({T.nat(ndelays)}, {f0}, {enc_progs(progs)}, {obs})')
+            descr.append((cfg, prefix, failed))
+    ctx.extra['fl_exploration'] = stats
+    bad = ctx.run_cases('file_lock', FL_HEADER, 'nat * fstate * list (list acq) * list fobs',
+                        cases, 'chk_fl')
+    reported = 0
+    for i in bad:
+        cfg, prefix, failed = descr[i]
+        if failed or reported >= 5:
+            continue
+        reported += 1
+        ctx.disagreement('file_lock', {'config': repr(cfg), 'schedule': repr(list(prefix))})
+    if bad and not reported:
+        ctx.broken.append(f'correspondence file_lock: {len(bad)} runs of the real FileLock are '
+                          f'not behaviours of the model (each also fails a monitor)')
+
+
 # ------------------------------------------------------------------ section thr
 def section_threading(ctx) -> None:
     """the threading twin: writer inside, reader 1 blocked, reader 2 must not get in"""
@@ -279,13 +409,10 @@ def run(ctx) -> None:
         'FileLock steps are atomic between suspension points (single event loop); cross-process '
         'races on an expired lock file are outside the model',
     ]
-    checkers = ['Sync/RWLockCheck']
-    if os.path.exists(os.path.join(os.path.dirname(__file__), '..', '..', 'coq', 'theories',
-                                   'Sync', 'FileLockCheck.v')):
-        checkers.append('Sync/FileLockCheck')
-    ctx.check_proofs(checkers)
+    ctx.check_proofs(['Sync/RWLockCheck', 'Sync/FileLockCheck'])
     algo = os.environ.get('VERIF_C20_ALGO', 'Fixed')
     section_rw(ctx, algo)
+    section_fl(ctx)
     section_threading(ctx)
     ctx.exhaustive = True
 
